@@ -10,8 +10,11 @@ package bug
 // depends on encoding/json leaving a non-nil target in place for a JSON object; that clause stays an
 // assumption on the Definition.OperationUnmarshaler field, see entity/dag/verif_contracts.go.)
 //@ func operationUnmarshaler
-//@   props C07
+//@   props C07 C04
 //@   nopanic
+// (C04: what was stored reads back as the same kind of operation) the stored payload is decoded into the operation
+// type of its kind - each kind into its own type
+//@   assert at `err := json.Unmarshal(raw, &op)` [decoded-into-the-type-of-its-kind] (t.OperationType == AddCommentOp ==> typeof(op) == type[*AddCommentOperation]) && (t.OperationType == CreateOp ==> typeof(op) == type[*CreateOperation]) && (t.OperationType == EditCommentOp ==> typeof(op) == type[*EditCommentOperation]) && (t.OperationType == LabelChangeOp ==> typeof(op) == type[*LabelChangeOperation]) && (t.OperationType == SetStatusOp ==> typeof(op) == type[*SetStatusOperation]) && (t.OperationType == SetTitleOp ==> typeof(op) == type[*SetTitleOperation]) && (t.OperationType == SetMetadataOp ==> typeof(op) == type[*dag.SetMetadataOperation[*Snapshot]]) && (t.OperationType == NoOpOp ==> typeof(op) == type[*dag.NoOpOperation[*Snapshot]])
 
 // Read-only accessors of the compiled snapshot.
 //@ func (*Snapshot).SearchCommentByOpId
